@@ -148,7 +148,7 @@ def main():
     (ROOT / "MANIFEST.json").write_text(json.dumps(man, indent=1) + "\n")
 
 
-HOOK_COMMITS = ["6646e89", "998c52d", "e3e337b", "e237f47", "2715dc2", "1fe3a72", "aac442f", "bed3429"]
+HOOK_COMMITS = ["6646e89", "998c52d", "e3e337b", "e237f47", "2715dc2", "1fe3a72", "aac442f", "bed3429", "146e1f6", "e990f4f", "478b380"]
 
 if __name__ == "__main__":
     main()
